@@ -369,3 +369,27 @@ PROPS['C03'] = dict(
             dict(target='when', family='whenany', mode='random', cases=200000, workers=2, timeout=3000, env=REL),
             dict(target='coro', family='coro', mode='random', cases=150000, workers=2, timeout=3000, env=REL),
             dict(target='wait', family='waitgroup', mode='random', cases=150000, workers=1, timeout=3000, env=REL)]))
+
+PROPS['C04'] = dict(
+    level='exploration',
+    assumptions=['ThreadSanitizer\'s happens-before analysis (g++ 12 run-time) is the oracle: it reports missing edges on '
+                 'executed paths independently of whether x86 would misbehave; it does not explore non-SC outcomes',
+                 'under TSan the library compiles the acq_rel variant of AtomicCounter::SubEqual (YACLIB_TSAN), the '
+                 'release+fence variant is never observed', 'OS schedules cannot be pinned: each program runs 20 times '
+                 'with generated start skews, on FAULT=OFF and on FAULT=THREAD (injected sleeps) builds',
+                 'generated programs are race-free at harness level by construction (own slots, std::latch before reads)'],
+    technique='rapidcheck-generated multi-threaded client programs (12 shapes isolating one library-provided edge each) '
+              'executed on real threads under ThreadSanitizer in two fault-injection builds',
+    level_text='Each generated program makes a library edge the only order between a plain write and a plain read '
+               '(promise->continuation in six attach forms, Get/Wait/WaitFor/WaitUntil return, Ready()==true, SharedFuture '
+               'observers with copies dropped / moved out on other threads, last-owner destruction, consecutive strand '
+               'jobs, pool submit->run->Wait, HardStop vs workers, coroutine Mutex/SharedMutex sections, WhenAll/WhenAny '
+               'outputs, WaitGroup/OneShotEvent, co_await resumption), runs 20x with start skews under TSan on the '
+               'FAULT=OFF and FAULT=THREAD builds. Any TSan report or wrong payload is a violation.',
+    level_note='Detects missing happens-before on executed paths only; absence of reports is not absence of races.',
+    jobs=q(
+        [dict(target='races-off', family='races_off', mode='random', cases=250, workers=8, timeout=900, racy=True),
+         dict(target='races-thr', family='races_thread', mode='random', cases=250, workers=8, timeout=900, racy=True)],
+        [dict(target='races-off', family='races_off', mode='random', cases=6000, workers=8, timeout=3000, racy=True),
+         dict(target='races-thr', family='races_thread', mode='random', cases=6000, workers=8, timeout=3000, racy=True)]),
+)
